@@ -57,8 +57,10 @@ def discharged : List (String × String × String × String) := [
   ("taskfile/ast:Var.UnmarshalYAML", "index", "‹*yaml.Node›.Content[0]", "guard: len(node.Content) == 0 returns a decode error before"),
   ("taskfile/ast:Vars.UnmarshalYAML", "index", "‹*yaml.Node›.Content[‹int›+1]", "yaml"),
   ("taskfile/ast:Vars.UnmarshalYAML", "index", "‹*yaml.Node›.Content[‹int›]", "yaml"),
+  ("taskfile/ast:duplicateKeyError", "index", "‹*yaml.Node›.Content[‹int›]", "loop: called from the hand-written mapping loops with their own index i (a key position, i < len(Content)); the inner index j runs from 0 below i"),
   ("taskfile:NewSnippet", "slice", "‹[]string›[‹*taskfile.Snippet›.start-1 : ‹*taskfile.Snippet›.end]", "guard: start and end are clamped to both line lists (snippet_bounds)"),
   ("taskfile:Reader.include", "assert", "‹graph.Edge[*ast.TaskfileVertex]›.Properties.Data.([]*ast.Include)", "lib: the only writer of edge data stores []*ast.Include"),
+  ("taskfile:Reader.include", "index", "‹*taskfile.readResult›.includes[‹int›]", "loop: includes has Includes.Len() slots (made right after readNode succeeded), i counts the includes"),
   ("taskfile:Reader.include", "index", "‹[]*taskfile.includeEdge›[‹int›]", "loop: edges has Includes.Len() slots, i counts the includes"),
   ("taskfile:Snippet.String", "index", "‹*taskfile.Snippet›.linesRaw[‹int›]", "loop: i ranges over linesHighlighted, which has the same length (both sliced with the same bounds)"),
   ("taskfile:getScheme", "index", "strings.Split(‹*url.URL›.Path, \"//\")[0]", "split: element 0 always exists"),
